@@ -249,6 +249,37 @@ def local_defined(F, S, fn, var, rec, use_nid):
     return defined
 
 
+def returned_record_complete(F, S, fn, rec):
+    """fn returns a `rec` every field of which was given a value: a braced initialiser naming all of them, or a local record
+    every leaf of which is definitely assigned where it is returned. Returns (verdict, detail); verdict None = shape unknown."""
+    rets = [nd for nd in fn.nodes if nd["k"] == "ReturnStmt" and "value" in nd]
+    if not rets:
+        return None, "no return"
+    nfields = len(F.record(rec)["fields"])
+    details = []
+    for r in rets:
+        ninit = None
+        for x in fn.subtree(r["value"]):
+            if fn.n(x)["k"] == "InitListExpr" and fn.n(x).get("rec") == rec:
+                ninit = len([k for k in fn.kids(x) if fn.n(k)["k"] != "ImplicitValueInitExpr"])
+        if ninit is not None:
+            if ninit != nfields:
+                return False, "%s explicit initialisers for %d fields" % (ninit, nfields)
+            details.append("%d initialisers" % ninit)
+            continue
+        t = fn.term(r["value"])
+        while t[0] == "ctor" and len(t[2]) == 1:
+            t = t[2][0]
+        if t[0] != "var":
+            return None, "returns %r" % (t,)
+        allv = set(leaves(F, rec))
+        missing = allv - local_defined(F, S, fn, t, rec, r["id"])
+        if missing:
+            return False, "not definitely assigned: %s" % fmt_paths(missing)
+        details.append("%d leaf fields assigned before the return" % len(allv))
+    return True, "; ".join(details)
+
+
 def fmt_paths(ps):
     return ", ".join(".".join(p) for p in sorted(ps))
 
